@@ -13,11 +13,16 @@
      rekey x          explicit requestKeyExchange          RequestKex
      queued x w i     packet appended to pendingPackets    WQueue      (hook under t.mu)
      kexdone x        sentInitMsg cleared after a kex      KLFinish    (hook under t.mu)
-   Unlogged internal steps (KLTakeReq, KLFlushDone, RLDeliver, RLResume) are taken as early
+   Unlogged internal steps (KLTakeReq, KLRelease, KLFlushDone, RLDeliver, RLResume) are taken as early
    as possible ("urgent": they only free resources, so taking them early never disables a
    later event).  When a rekey request token is deposited or taken is not observable and not
    part of the property (thresholds may fire at any time): a KEXINIT from an idle kexLoop is
-   explained by SendInitFromIdle.  WBlock is not needed: a blocked writer is a calling writer. *)
+   explained by SendInitFromIdle.  WBlock is not needed: a blocked writer is a calling writer.
+   'wire' is logged at keyingTransport.writePacket ENTRY (before conn.Write may block), so the
+   model's wire here is "logged as written, not yet logged as received" and is unbounded:
+   trace configs set NetCap above any trace length, also for the bounded-pipe scenario
+   BothQueueBeyondPipe, whose blocking is judged at property level by the driver.
+   ReleaseAfterFlush = FALSE in trace configs (the code's order). *)
 EXTENDS SSHRekey, TraceLib
 
 TraceInit == Init /\ l = 1 /\ HWMInit
@@ -41,10 +46,11 @@ TReset == /\ IsEvent("reset")
 \* ---- urgent internal steps: taking them as early as possible never disables a later event
 \* (they only free resources), so the trace spec takes them before anything else.  This keeps
 \* validation linear in the trace without losing any explanation.
-UrgentStep(x) == \/ RLDeliver(x) \/ RLResume(x) \/ KLFlushDone(x) \/ KLTakeReq(x)
+UrgentStep(x) == \/ RLDeliver(x) \/ RLResume(x) \/ KLRelease(x) \/ KLFlushDone(x) \/ KLTakeReq(x)
 UrgentEnabled == \E x \in Sides :
    \/ (held[x] # <<>> /\ Len(incoming[x]) < ChanSize)
    \/ hand[x] = "released"
+   \/ kx[x] = "release"
    \/ (kx[x] = "flushing" /\ pending[x] = <<>>)
    \/ (kx[x] \in {"idle", "sentOnly"} /\ hand[x] = "offered")
 Calm == ~UrgentEnabled
@@ -61,7 +67,7 @@ Appended(x) == /\ Len(wire'[x]) = Len(wire[x]) + 1
 \* observable and not part of the property: the KEXINIT of an idle kexLoop is explained as
 \* "token taken, then sendKexInit" in one step.
 SendInitFromIdle(x) ==
-  /\ kx[x] = "idle"
+  /\ kx[x] = "idle" /\ Room(x)
   /\ wire' = [wire EXCEPT ![x] = Append(@, Ctl("KEXINIT", x))]
   /\ sentInit' = [sentInit EXCEPT ![x] = TRUE]
   /\ kx' = [kx EXCEPT ![x] = "sentOnly"]
